@@ -213,9 +213,6 @@ func init() {
 			per := map[string]mc.SeqStats{}
 			for i, e := range c15Engines {
 				d := depth
-				if e != hx.Mem && c.Tier == "quick" {
-					d = 2
-				}
 				st := mc.DriveSeq(c, "bfs", i, len(c15OpNames), d)
 				per[e] = st
 				total.States += st.States
